@@ -35,6 +35,7 @@ type arrival struct {
 type advert struct {
 	id    int
 	peer  int
+	f     uint32
 	key   string
 	start int
 	ack   int
@@ -80,7 +81,7 @@ func judge(h *Header, evs []Ev) *judgement {
 				a.ack = e.N
 			}
 		case "adv-start":
-			a := &advert{id: e.A, peer: e.P, key: snapKeyOf(e.H, e.F, e.NCh, e.Hash, e.Meta), start: e.N}
+			a := &advert{id: e.A, peer: e.P, f: e.F, key: snapKeyOf(e.H, e.F, e.NCh, e.Hash, e.Meta), start: e.N}
 			adv[e.A] = a
 			advList = append(advList, a)
 			j.counts["advert sent: "+e.X]++
@@ -111,6 +112,13 @@ func judge(h *Header, evs []Ev) *judgement {
 	var callNs []int                // event numbers of app / provider calls (the syncer has finished handling every earlier response)
 	rejectedKeys := map[string]int{}
 	rejectedFormats := map[uint32]int{}
+	// rejected while the pool certainly did not hold it any more (every advertiser had left or been rejected by then)
+	orphanKeys := map[string]bool{}
+	orphanFormats := map[uint32]bool{}
+	var stops []rejection // (peer, event) of every peer-stop
+	// senders of a snapshot answered REJECT_SENDER that had disconnected while the offer was in flight
+	var awayRejections []rejection
+	offerCallN := 0
 	stopped := map[int]int{}
 	var lastSP *Ev
 	curKey := ""
@@ -120,12 +128,37 @@ func judge(h *Header, evs []Ev) *judgement {
 	var lastApplyRet, lastInfoRet *Ev
 	var syncRet, boot, cut *Ev
 	offers := 0
+	// pooled(match, at): is there an advert accepted by match that can still be in the pool at event `at`?
+	// (sent before `at`, its peer neither stopped nor rejected between the advert and `at`)
+	pooled := func(match func(*advert) bool, at int) bool {
+		for _, a := range advList {
+			if !match(a) || a.start > at {
+				continue
+			}
+			gone := false
+			for _, st := range stops {
+				if st.peer == a.peer && st.at > a.start && st.at < at {
+					gone = true
+				}
+			}
+			for _, r := range rejections {
+				if r.peer == a.peer && r.at <= at {
+					gone = true
+				}
+			}
+			if !gone {
+				return true
+			}
+		}
+		return false
+	}
 	for k := range evs {
 		e := &evs[k]
 		switch e.K {
 		case "sync-call":
 			lastTerminal = e.N
 		case "peer-stop":
+			stops = append(stops, rejection{e.P, e.N})
 			stopped[e.P] = e.N
 			j.counts["peer stopped mid-restore"]++
 		case "peer-reconnect":
@@ -163,11 +196,16 @@ func judge(h *Header, evs []Ev) *judgement {
 				lastTerminal = e.N
 				if e.M != "AppHash" && curKey != "" && e.X2 != "nowitness" {
 					rejectedKeys[curKey] = e.N
+					ck := curKey
+					if !pooled(func(a *advert) bool { return a.key == ck }, e.N) {
+						orphanKeys[ck] = true
+					}
 				}
 				afterRetrySnapshot = false
 			}
 		case "offer-call":
 			callNs = append(callNs, e.N)
+			offerCallN = e.N
 			offers++
 			key := snapKeyOf(e.H, e.F, e.NCh, e.Hash, e.Meta)
 			t, verifiable := h.Truth[e.H]
@@ -180,23 +218,37 @@ func judge(h *Header, evs []Ev) *judgement {
 				j.add("offered-app-hash-not-from-light-client", fmt.Sprintf("OfferSnapshot.AppHash=%s, light-verified app hash of height %d is %s", e.B, e.H, t.AppHash), e.N, e)
 			}
 			if at, ok := rejectedKeys[key]; ok {
-				j.add("rejected-snapshot-offered-again", fmt.Sprintf("snapshot %s was rejected at event %d and is offered again", key, at), e.N, e)
+				if orphanKeys[key] {
+					j.add("rejected-snapshot-offered-again-after-pool-removal", fmt.Sprintf("snapshot %s was rejected at event %d, when every peer that had advertised it had already left or been rejected (the pool no longer held it); it was advertised again and is offered again", key, at), e.N, e)
+				} else {
+					j.add("rejected-snapshot-offered-again", fmt.Sprintf("snapshot %s was rejected at event %d and is offered again", key, at), e.N, e)
+				}
 			}
 			if at, ok := rejectedFormats[e.F]; ok {
-				j.add("rejected-format-offered-again", fmt.Sprintf("format %d was rejected at event %d and a snapshot of that format is offered", e.F, at), e.N, e)
+				if orphanFormats[e.F] {
+					j.add("rejected-format-offered-again-after-pool-removal", fmt.Sprintf("format %d was rejected at event %d, when the pool held no snapshot of that format any more; a snapshot of that format is offered", e.F, at), e.N, e)
+				} else {
+					j.add("rejected-format-offered-again", fmt.Sprintf("format %d was rejected at event %d and a snapshot of that format is offered", e.F, at), e.N, e)
+				}
 			}
 			if afterRetrySnapshot && key != curKey {
 				j.add("retry-snapshot-offered-other-snapshot", "RETRY_SNAPSHOT was followed by an offer of a different snapshot", e.N, e)
 			}
 			// a source that is not a rejected sender
 			if !(afterRetrySnapshot && key == curKey) {
-				any, valid := false, false
+				any, valid, validAway := false, false, false
 				for _, a := range advList {
 					if a.key != key || a.start > e.N {
 						continue
 					}
 					any = true
 					bad := false
+					away := false
+					for _, r := range awayRejections {
+						if r.peer == a.peer && r.at <= lastTerminal {
+							away = true
+						}
+					}
 					for _, r := range rejections {
 						if r.peer != a.peer || r.at > lastTerminal {
 							continue
@@ -208,7 +260,14 @@ func judge(h *Header, evs []Ev) *judgement {
 					}
 					if !bad {
 						valid = true
+						if !away {
+							validAway = true
+						}
 					}
+				}
+				if any && valid && !validAway {
+					j.add("sender-rejected-while-disconnected-used-again",
+						"the app answered REJECT_SENDER for a snapshot whose only sender had disconnected while the offer was in flight; that sender came back and a snapshot it (alone) advertises is offered", e.N, e)
 				}
 				if !any {
 					j.add("offered-snapshot-never-advertised", "no peer sent this snapshot before it was offered", e.N, e)
@@ -226,11 +285,33 @@ func judge(h *Header, evs []Ev) *judgement {
 			switch e.M {
 			case "REJECT":
 				rejectedKeys[curKey] = e.N
+				ck := curKey
+				if !pooled(func(a *advert) bool { return a.key == ck }, e.N) {
+					orphanKeys[ck] = true
+					j.counts["snapshot rejected while no longer pooled (at offer)"]++
+				}
 			case "REJECT_FORMAT":
 				if curOffer != nil {
 					rejectedFormats[curOffer.F] = e.N
+					cf := curOffer.F
+					if !pooled(func(a *advert) bool { return a.f == cf }, e.N) {
+						orphanFormats[cf] = true
+						j.counts["format rejected while no snapshot of it pooled"]++
+					}
 				}
 			case "REJECT_SENDER":
+				// advertisers that left between the offer call and its answer: the pool cannot name them any more
+				for _, a := range advList {
+					if a.key != curKey || a.ack == 0 || a.ack > offerCallN {
+						continue
+					}
+					for _, st := range stops {
+						if st.peer == a.peer && st.at > offerCallN && st.at < e.N {
+							awayRejections = append(awayRejections, rejection{a.peer, e.N})
+							j.counts["REJECT_SENDER while the sender had just disconnected"]++
+						}
+					}
+				}
 				// the senders rejected are the peers the pool holds for this snapshot; only peers whose
 				// advert was certainly pooled are taken as rejected (an advert is dropped when the peer
 				// already has 10 snapshots pooled, or its format / key / sender was blacklisted)
@@ -283,6 +364,11 @@ func judge(h *Header, evs []Ev) *judgement {
 			case "REJECT_SNAPSHOT":
 				rejectedKeys[curKey] = e.N
 				lastTerminal = e.N
+				ck := curKey
+				if !pooled(func(a *advert) bool { return a.key == ck }, e.N) {
+					orphanKeys[ck] = true
+					j.counts["snapshot rejected while no longer pooled (REJECT_SNAPSHOT + RejectSenders)"]++
+				}
 			case "RETRY_SNAPSHOT":
 				afterRetrySnapshot = true
 				lastTerminal = e.N
